@@ -98,6 +98,13 @@ def _live(repo_path: str) -> dict:
             # no longer an lru_cache under this name (refactored): fall back to the module's CACHE_SIZE constant.
             # The capacity only matters to the model while a setter leaves stale entries behind.
             sizes.append((name, int(consts.get(modname.split(".")[-1], 256))))
+    typed = True
+    for name, modname, path in CACHES:
+        if name.startswith("Dtype."):
+            try:
+                typed = typed and bool(_resolve(modname, path).cache_parameters()["typed"])
+            except Exception:
+                typed = False
     o = bitstring.options
     saved = (o.lsb0, o.bytealigned, o.mxfp_overflow)
 
@@ -119,7 +126,7 @@ def _live(repo_path: str) -> dict:
     stale_mxfp = probe(lambda: setattr(o, "mxfp_overflow", "saturate"), lambda: setattr(o, "mxfp_overflow", "overflow"),
                        "e4m3mxfp=1000")
     stale_lsb0 = probe(lambda: setattr(o, "lsb0", False), lambda: setattr(o, "lsb0", True), "ue=3")
-    return {"sizes": sizes, "stale_mxfp": bool(stale_mxfp), "stale_lsb0": bool(stale_lsb0)}
+    return {"sizes": sizes, "stale_mxfp": bool(stale_mxfp), "stale_lsb0": bool(stale_lsb0), "dtype_typed": bool(typed)}
 
 
 def _obs(bitstring, s):
@@ -234,6 +241,8 @@ def render(data: dict) -> str:
             "def staleAfterMxfp : Bool := " + b(data["stale_mxfp"]) + "\n\n"
             "/-- Evaluated: `Bits('ue=3')` parsed in msb0 mode is still served after `options.lsb0 = True`. -/\n"
             "def staleAfterLsb0 : Bool := " + b(data["stale_lsb0"]) + "\n\n"
+            "/-- `cache_parameters()['typed']` of both Dtype caches: keys `2`, `2.0`, `True` are kept apart (e6496ea). -/\n"
+            "def dtypeCachesTyped : Bool := " + b(data["dtype_typed"]) + "\n\n"
             "end BM.Gen\n")
 
 
